@@ -100,6 +100,26 @@ EOf(fo) ==
      aux |-> AuxRow(x),
      postRow |-> [h \in Hosts |-> EncodeRow(cur', h)]]
 
+\* Every transition of the reference semantics is an instance of the abstract relation of NASimSym.tla (whose
+\* invariants Apalache proves for EVERY scenario up to 4 subnets x 2 hosts): no change, or one of the three
+\* effects under the preconditions that matter there.
+SymRefines(s, t, a) ==
+    LET tg == a.target
+        frame(fs) == \A h \in Hosts : \A f \in fs :
+                        CASE f = "comp" -> t[h].comp = s[h].comp [] f = "acc" -> t[h].acc = s[h].acc
+                          [] f = "disc" -> t[h].disc = s[h].disc [] OTHER -> t[h].reach = s[h].reach
+    IN \/ t = s
+       \/ /\ s[tg].reach /\ s[tg].disc /\ t[tg].comp /\ t[tg].acc \in {s[tg].acc, 1, 2} /\ t[tg].acc >= s[tg].acc
+          /\ \A h \in Hosts : h # tg => t[h].comp = s[h].comp /\ t[h].acc = s[h].acc
+          /\ \A h \in Hosts : t[h].reach = (s[h].reach \/ Connected(Sub(tg), Sub(h)))
+          /\ frame({"disc"})
+       \/ /\ s[tg].reach /\ s[tg].disc /\ s[tg].comp /\ t[tg].acc >= s[tg].acc
+          /\ \A h \in Hosts : h # tg => t[h].acc = s[h].acc
+          /\ frame({"comp", "disc", "reach"})
+       \/ /\ s[tg].reach /\ s[tg].disc /\ s[tg].comp /\ s[tg].acc >= 1
+          /\ \A h \in Hosts : t[h].disc = (s[h].disc \/ Connected(Sub(tg), Sub(h)))
+          /\ frame({"comp", "acc", "reach"})
+
 ClausesHold ==
     IF last'.ev # "step" THEN
         (~DumpEdges) \/ PrintT(<<"RESET", KeyOf(cur)>>)
@@ -110,6 +130,8 @@ ClausesHold ==
                        => (WouldChange(cur, ActionAt(last'.k)) <=> cur' # cur)
       IN /\ bad = {} \/ Assert(FALSE, <<"SPECFAIL", bad, KeyOf(cur), last'>>)
          /\ fastOK \/ Assert(FALSE, <<"SPECFAIL-WouldChange", KeyOf(cur), last'>>)
+         /\ SymRefines(cur, cur', ActionAt(last'.k))
+               \/ Assert(FALSE, <<"SPECFAIL-SymRefines", KeyOf(cur), last'>>)
          /\ paidTwice = {} \/ Assert(FALSE, <<"SPECFAIL-paid-twice", paidTwice, KeyOf(cur), last'>>)
          /\ (~DumpEdges) \/
               PrintT(<<"EDGE", KeyOf(cur), last'.k, last'.luck, KeyOf(cur'),
